@@ -207,18 +207,26 @@ fn run_inner(rng: &mut Rng, world: &World, k: u16, format: &str, dir: &str) -> C
         sets.insert(l.to_string(), gen_explicit_set(rng, world).0);
     }
     let lib_sets: LabelToSetMap = lib_context(world, &sys, &sets);
+    let mut out_empty_list = false;
     let mut fopts = FormOpts::plain();
     fopts.max_size = 7;
     fopts.max_quant_depth = (k as usize).min(2);
     fopts.hybrids = k > 0;
-    let mut formulae: Vec<String> = (0..rng.range(1, 4)).map(|_| gen_formula(rng, &fopts, &world.net.names).canon()).collect();
-    if rng.coin() {
+    // now and then the empty formula list
+    let count = if rng.chance(1, 12) { 0 } else { rng.range(1, 4) };
+    let mut formulae: Vec<String> = (0..count).map(|_| gen_formula(rng, &fopts, &world.net.names).canon()).collect();
+    if formulae.is_empty() {
+        out_empty_list = true;
+    } else if rng.coin() {
         let d = formulae[0].clone();
         formulae.push(d);
     }
     let mut out = CaseOut::new(format!("{}|{:?}|{:?}|{}|{}", world.net.to_aeon(), sets_json(world, &sets), formulae, k, format));
     out.count(&format!("format_{format}"));
     out.count(&format!("k_{k}"));
+    if out_empty_list {
+        out.count("empty_formula_lists");
+    }
     out.nontrivial = nlabels >= 2 && sets.values().any(|s| crate::world::explicit_is_strict_nonempty(world, s));
     let detail = |why: &str| case_json(world, &formulae, vec![("labels", sets_json(world, &sets)), ("k", J::Int(k as i64)), ("format", J::s(format)), ("why", J::s(why))]);
 
